@@ -30,6 +30,9 @@ pub enum Op {
     ShrinkSet(u8),
     /// `slots[dst] = slots[src].clone()`: the copy holds what the original holds
     CloneSet(u8, u8),
+    /// `slots[dst].clone_from(&copy of slots[src])`: the allocation-reusing variant of Clone, into a set that may
+    /// have held more (or fewer) records before
+    CloneFromSet(u8, u8),
 }
 
 #[derive(Clone, Debug, PartialEq, Eq)]
@@ -65,6 +68,21 @@ pub struct Trace {
 
 pub const N_SLOTS: usize = 3;
 
+/// The record count of `Op::ReadExact`: the byte itself, except that the top values stand for the counts a caller
+/// passes to say "everything" (`usize::MAX`, `isize::MAX`, ...) and other counts far beyond any input.
+pub fn exact_count(n: u8) -> usize {
+    match n {
+        0 => 1,
+        250 => u32::MAX as usize,
+        251 => 1usize << 40,
+        252 => (isize::MAX as usize) / 40 + 1,
+        253 => isize::MAX as usize,
+        254 => usize::MAX / 8,
+        255 => usize::MAX,
+        n => n as usize,
+    }
+}
+
 pub struct RunSpec<'a> {
     pub input: &'a [u8],
     pub cap: usize,
@@ -97,6 +115,7 @@ pub fn target_pos(m: &Model, i: usize) -> (u64, u64) {
 
 pub fn run_ops<R: SeekRdr<Src = Source>>(spec: &RunSpec) -> Trace {
     let shared = Rc::new(Shared::default());
+    shared.input_len.set(spec.input.len().max(1));
     let data = Rc::new(spec.input.to_vec());
     let (src, src_log) = Source::new(data, spec.script.clone(), budget(spec.input.len(), spec.cap, spec.ops.len()));
     let (pol, pol_log) = RecPolicy::new(spec.policy, shared.clone());
@@ -148,7 +167,7 @@ pub fn run_ops<R: SeekRdr<Src = Source>>(spec: &RunSpec) -> Trace {
             }
             Op::ReadExact(s, n) => {
                 let slot = *s as usize % N_SLOTS;
-                let n = (*n as usize).max(1);
+                let n = exact_count(*n);
                 let res = r.read_set(&mut slots[slot], Some(n));
                 if res == SetOut::Ok {
                     delivered += R::set_len(&slots[slot]);
@@ -203,6 +222,12 @@ pub fn run_ops<R: SeekRdr<Src = Source>>(spec: &RunSpec) -> Trace {
                 slots[dst] = copy;
                 Ev::Cloned { src, dst }
             }
+            Op::CloneFromSet(a, b) => {
+                let (src, dst) = (*a as usize % N_SLOTS, *b as usize % N_SLOTS);
+                let copy = slots[src].clone();
+                slots[dst].clone_from(&copy);
+                Ev::Cloned { src, dst }
+            }
             Op::IntoRecords => {
                 let r = rdr.take().unwrap();
                 let outs = r.drain_into_records(spec.model.recs.len() + 8, 2);
@@ -227,6 +252,8 @@ pub fn run_ops<R: SeekRdr<Src = Source>>(spec: &RunSpec) -> Trace {
         });
     }
     src_log.borrow_mut().bad_policy = shared.bad_answer.get();
+    src_log.borrow_mut().runaway = shared.runaway.get();
+    src_log.borrow_mut().stalled = shared.stalled.get();
     let slot_caps = slots.iter().map(|s| R::set_buf_capacity(s)).collect();
     Trace { steps, src: src_log, pol_logs, pol_installed_at, slot_caps }
 }
@@ -850,6 +877,18 @@ pub fn livelock_check(fmt: &str, t: &Trace) -> CheckResult {
         return Err(Failure::new(
             format!("{}/policy-answer-{}", fmt, if ans <= cur { "does-not-grow" } else { "absurdly-large" }),
             format!("the growth policy answered grow_to({}) = {}: the harness refused instead of passing it on", cur, ans),
+        ));
+    }
+    if let Some(cur) = t.src.borrow().stalled {
+        return Err(Failure::new(
+            format!("{}/policy-asked-again-without-adopting-the-answer", fmt),
+            format!("grow_to({}) was called 10 000 times in a row although every answer was a larger size: the reader does not adopt the size it is given (the harness refused in the end)", cur),
+        ));
+    }
+    if let Some(cur) = t.src.borrow().runaway {
+        return Err(Failure::new(
+            format!("{}/growth-request-although-buffer-exceeds-input", fmt),
+            format!("the policy was asked grow_to({}) although the buffer is already larger than the whole input: no record can need that (the harness refused)", cur),
         ));
     }
     if t.src.borrow().budget_exceeded {
